@@ -68,6 +68,13 @@ def run_case(machine, case, wall_s=RUN_WALL_S):
     signal.alarm(wall_s)
     try:
         res = machine.run(case)
+    except K.HarnessError as e:
+        # the machine could not set the run up or lost track of the engine: that run is given up and counted
+        # (status 'harness-error', first message kept); it is not a verdict on the property either way
+        res = new_result()
+        res['status'] = 'harness-error'
+        res['stats']['harness-error: ' + str(e)[:160]] += 1
+        K.WORLD = None
     except WallAlarm:
         res = new_result()
         res['status'] = 'hang'
@@ -370,6 +377,15 @@ def check_main(prop, mname, argv=None, level_text=None):
         # (b) minimise
         small, ntests = minimise(machine, case, prop, sig, budget_s=60 if tier == 'quick' else 180)
         res = run_case(machine, small)
+        if not _has(res, prop, sig):
+            # the minimised case does not show it again (a wall-clock alarm, or something the case does not own):
+            # report the case as found
+            small = case
+            res = run_case(machine, small)
+            if not _has(res, prop, sig):
+                print('HARNESS-ERROR flaky: property=%s sig=%s index=%d reproduced once and then no more' % (prop, sig, rec['index']))
+                harness_error = 'flaky violation %s' % sig
+                continue
         v = [x for x in res['violations'] if x['prop'] == prop and x['sig'] == sig][0]
         path = write_replay(prop, mname, small, v, res['digest'])
         # (d) fresh-interpreter replay
@@ -429,6 +445,12 @@ def check_main(prop, mname, argv=None, level_text=None):
         dict(total['faults']), dict(total['status']), wall, int(runs / max(explore_s, 1e-6) * 3600)))
     if total['other']:
         print('note: observations tagged for other properties (not judged here): %s' % dict(total['other'].most_common(5)))
+    nh = total['status'].get('harness-error', 0)
+    if nh:
+        first = [k for k in total['stats'] if str(k).startswith('harness-error: ')][:2]
+        print('note: %d of %d runs were given up by the harness itself (no verdict from them): %s' % (nh, runs, first))
+        if nh * 5 > runs:
+            harness_error = harness_error or 'more than a fifth of the runs were given up by the harness'
     if harness_error and exit_code == 0:
         print('HARNESS-ERROR: %s' % harness_error)
         return 2
